@@ -82,15 +82,6 @@ def schema_omits_init_false_field(v):
 
 
 @predicate
-def schema_applies_field_namedtuple_engine_inside_collections(v):
-    """F38: field option serialize='as_dict' / 'as_list' on a field typed List[NT] / Dict[str, NT] / ...: pack_collection
-    hands its elements a field context without the metadata, so the elements keep the class-level NamedTuple rendering,
-    while the schema builder derives the element Instance with the metadata and describes the other rendering."""
-    f = v.get("facts", {})
-    return bool(f.get("under_field_with_namedtuple_engine_on_collection"))
-
-
-@predicate
 def schema_property_names_typed_as_python_key(v):
     """F10: propertyNames of a mapping schema is the schema of the Python key type (integer, number, enum of ints, ...)
     although JSON object keys are always strings."""
